@@ -33,6 +33,7 @@ EXTENDS Boolability
 (* Conditions (uniform records so that they travel through JSON)           *)
 (*   kind: isinstance issubclass typeis typeguard is eq in truthy boolcall *)
 (*         len c_isinstance c_isvalue not and or                           *)
+(*         cmp   x < lit, x <= lit, x > lit, x >= lit  (op, lits[1])        *)
 (*         m_value m_singleton m_class m_or m_seq (patterns of `match x:`) *)
 (*   m_seq: a sequence pattern of capture sub-patterns; n = number of      *)
 (*         non-star elements, op = "" (no star) or the index of the star   *)
@@ -51,6 +52,7 @@ CIn(lits, neg) == Cnd("in", << >>, lits, Never, "", 0, neg, << >>)
 CTruthy == Cnd("truthy", << >>, << >>, Never, "", 0, FALSE, << >>)
 CBoolCall == Cnd("boolcall", << >>, << >>, Never, "", 0, FALSE, << >>)
 CLen(op, n) == Cnd("len", << >>, << >>, Never, op, n, FALSE, << >>)
+CCmp(op, lit) == Cnd("cmp", << >>, <<lit>>, Never, op, 0, FALSE, << >>)
 CLegacyIsinstance(c) == Cnd("c_isinstance", <<c>>, << >>, Never, "", 0, FALSE, << >>)
 CLegacyIsvalue(lit) == Cnd("c_isvalue", << >>, <<lit>>, Never, "", 0, FALSE, << >>)
 \* match x: case <pattern>: ... case _: ...   (value, singleton, class pattern without sub-patterns, or-pattern)
@@ -82,6 +84,9 @@ Cmp(a, op, b) ==
     CASE op = "==" -> a = b  [] op = "!=" -> a # b  [] op = "<" -> a < b
       [] op = "<=" -> a <= b [] op = ">" -> a > b   [] op = ">=" -> a >= b
 B2C(b) == IF b THEN 1 ELSE 0
+\* twice the numeric value of an int / bool / float object of the universe (ordering comparisons across the numeric types)
+Num2(o) == CASE o.c = "bool" -> (IF o.v = "True" THEN 2 ELSE 0)
+             [] o.v \in {"0", "0.0"} -> 0 [] o.v \in {"1", "1.0"} -> 2 [] o.v = "1.5" -> 3 [] o.v = "2" -> 4
 
 RECURSIVE HoldsCode(_, _)
 HoldsCode(c, o) ==
@@ -98,6 +103,8 @@ HoldsCode(c, o) ==
       [] c.kind = "in" -> B2C((\E i \in 1..Len(c.lits) : PyEq(o, c.lits[i])) # c.neg)
       [] c.kind \in {"truthy", "boolcall"} -> B2C(Truthy(o))
       [] c.kind = "len" -> IF ~HasLen(o) THEN 2 ELSE B2C(Cmp(PyLen(o), c.op, c.n))
+      \* x < 1: TypeError unless x is a number (no object of the universe defines an ordering against int)
+      [] c.kind = "cmp" -> IF ~IsNumeric(o) THEN 2 ELSE B2C(Cmp(Num2(o), c.op, Num2(c.lits[1])))
       [] c.kind = "not" -> LET h == HoldsCode(c.subs[1], o) IN IF h = 2 THEN 2 ELSE 1 - h
       [] c.kind = "and" -> LET h == HoldsCode(c.subs[1], o) IN IF h # 1 THEN h ELSE HoldsCode(c.subs[2], o)
       [] c.kind = "or" -> LET h == HoldsCode(c.subs[1], o) IN IF h # 0 THEN h ELSE HoldsCode(c.subs[2], o)
@@ -144,6 +151,8 @@ PEquals(lit, useis) == Pred("equals", Never, FALSE, <<lit>>, useis, "", 0, "", F
 PatternType(lits) == IF lits # << >> /\ \A i \in 1..Len(lits) : lits[i].c = lits[1].c THEN lits[1].c ELSE "object"
 PIn(lits) == Pred("in", Never, FALSE, lits, FALSE, "", 0, PatternType(lits), FALSE)
 PLen(op, n) == Pred("len", Never, FALSE, << >>, FALSE, op, n, "", FALSE)
+\* predicate_func of _constraint_from_compare_op for <, <=, >, >= against a literal on the right (name_check_visitor.py:3634)
+PCmp(op, lit) == Pred("cmp", Never, FALSE, <<lit>>, FALSE, op, 0, "", FALSE)
 \* patma.py: IsAssignablePredicate(MatchableSequence, ...) -- MatchableSequence (patma.py:127) is Sequence annotated with
 \* Exclude[str | bytes | bytearray]; the marker ptype = "matchseq" stands for that annotation
 PMatchSeq(ponly) == Pred("assignable", Typed("Sequence"), ponly, << >>, FALSE, "", 0, "matchseq", FALSE)
@@ -235,6 +244,7 @@ ImplOfCond(c) ==
       [] c.kind = "truthy" -> EquivMake(<<ACon(ConTruthy(TRUE)), ANull>>)                   \* :4184 _visit_possible_constraint
       [] c.kind = "boolcall" -> ACon(ConTruthy(TRUE))                                       \* implementation.py:1597 _bool_impl
       [] c.kind = "len" -> ACon(ConPredicate(TRUE, PLen(c.op, c.n)))                        \* :3656 _constraint_from_predicate_provider
+      [] c.kind = "cmp" -> ACon(ConPredicate(TRUE, PCmp(c.op, c.lits[1])))                 \* :3634 _constraint_from_compare_op (always positive=True)
       [] c.kind = "c_isinstance" -> ACon(ConIsInstance(TRUE, c.cls[1]))                     \* implementation.py:186 (assert_is_instance)
       [] c.kind = "c_isvalue" -> ACon(ConIsValue(TRUE, c.lits[1]))                          \* implementation.py:1540 (assert_is)
       [] c.kind = "m_value" -> ACon(ConPredicate(TRUE, PEquals(c.lits[1], FALSE)))          \* patma.py:188 visit_MatchValue
@@ -350,6 +360,11 @@ ImplLenPred(pos, op, n, v) ==
     LET lv == ImplLenOfValue(v)
     IN IF lv.known /\ ~Cmp(lv.n, IF pos THEN op ELSE NegOp(op), n) THEN None ELSE Some(v)
 
+\* predicate_func of _constraint_from_compare_op (name_check_visitor.py:3636): a literal is kept iff the comparison is true
+\* (or raises); any other value is kept (positive: annotated with a CustomCheck extension, which is outside the term algebra)
+ImplCmpPred(pos, op, lit, v) ==
+    IF v.k = "known" /\ IsNumeric(v.o) /\ ~Cmp(Num2(v.o), IF pos \/ NBug = "cmp_neg_not_negated" THEN op ELSE NegOp(op), Num2(lit)) THEN None ELSE Some(v)
+
 \* patma.LenPredicate.__call__ (patma.py:141)
 ImplSeqLenPred(pos, n, star, v) ==
     LET lv == ImplLenOfValue(v)
@@ -366,6 +381,7 @@ ImplPred(pred, pos, v) ==
       [] pred.p = "equals" -> ImplEqualsPred(pos, pred.lits[1], pred.useis, v)
       [] pred.p = "in" -> ImplInPred(pos, pred.lits, pred.ptype, v)
       [] pred.p = "len" -> ImplLenPred(pos, pred.op, pred.n, v)
+      [] pred.p = "cmp" -> ImplCmpPred(pos, pred.op, pred.lits[1], v)
 
 (***************************************************************************)
 (* Impl: Constraint.apply_to_value (stacked_scopes.py:321)                 *)
@@ -582,10 +598,12 @@ ChooseEq == AtomStage /\ InAtomSpace /\ "eq" \in NKinds /\ \E lit \in EqLits, ne
 ChooseIn == AtomStage /\ InAtomSpace /\ "in" \in NKinds /\ \E lits \in InLits, neg \in BOOLEAN : Pick(CIn(lits, neg))
 ChooseTruthy == AtomStage /\ InAtomSpace /\ "truthy" \in NKinds /\ \E c \in {CTruthy, CBoolCall} : Pick(c)
 ChooseLen == AtomStage /\ InAtomSpace /\ "len" \in NKinds /\ \E op \in LenOps, n \in 0..2 : Pick(CLen(op, n))
+ChooseCmp == AtomStage /\ InAtomSpace /\ "cmp" \in NKinds /\ \E op \in {"<", "<=", ">", ">="}, lit \in {I0, I1} : Pick(CCmp(op, lit))
 ChooseLegacyIsinstance == AtomStage /\ InAtomSpace /\ "c_isinstance" \in NKinds /\ \E c \in LegacyClasses : Pick(CLegacyIsinstance(c))
 ChooseLegacyIsvalue == AtomStage /\ InAtomSpace /\ "c_isvalue" \in NKinds /\ \E lit \in LegacyLits : Pick(CLegacyIsvalue(lit))
 InCompoundSpace == stage = "cc"
-ChooseNot == AtomStage /\ InCompoundSpace /\ "not" \in NKinds /\ \E a \in CompoundAtoms \cup {CLen("==", 1), CLen("<", 2), CTruthy} : Pick(CNot(a))
+ChooseNot == AtomStage /\ InCompoundSpace /\ "not" \in NKinds /\ \E a \in CompoundAtoms \cup {CLen("==", 1), CLen("<", 2), CTruthy}
+                                                                         \cup (IF "cmp" \in NKinds THEN {CCmp("<", I1), CCmp(">=", I1)} ELSE {}) : Pick(CNot(a))
 ChooseAnd == AtomStage /\ InCompoundSpace /\ "and" \in NKinds /\ \E a \in CompoundAtoms, b \in CompoundAtoms : a # b /\ Pick(CAnd(a, b))
 ChooseOr == AtomStage /\ InCompoundSpace /\ "or" \in NKinds /\ \E a \in CompoundAtoms, b \in CompoundAtoms : a # b /\ Pick(COr(a, b))
 \* one level deeper: not (a and b), not (a or b), (a and b) or c  -- exercises invert / one_of / all_of
@@ -605,7 +623,7 @@ ChooseMatchSeq == AtomStage /\ InAtomSpace /\ "matchseq" \in NKinds /\ \E c \in 
 ChooseMatchOr == AtomStage /\ InCompoundSpace /\ "match" \in NKinds /\ \E a \in MatchOrAtoms, b \in MatchOrAtoms : a # b /\ Pick(CMatchOr(a, b))
 
 NNext == ChooseMatch \/ ChooseMatchSeq \/ ChooseMatchOr \/ ChooseV \/ ChooseVCompound \/ ChooseIsinstance \/ ChooseIssubclass \/ ChooseTypeIs \/ ChooseTypeGuard \/ ChooseIs \/ ChooseEq \/ ChooseIn
-         \/ ChooseTruthy \/ ChooseLen \/ ChooseLegacyIsinstance \/ ChooseLegacyIsvalue \/ ChooseNot \/ ChooseAnd \/ ChooseOr \/ ChooseDeep
+         \/ ChooseTruthy \/ ChooseLen \/ ChooseCmp \/ ChooseLegacyIsinstance \/ ChooseLegacyIsvalue \/ ChooseNot \/ ChooseAnd \/ ChooseOr \/ ChooseDeep
 
 NDone == stage = "done"
 InvN1 == NDone => N1(ta, cnd)
